@@ -151,11 +151,11 @@ theorem appendTail_far {f : Forest} {p c : Nat} {t : HTree} {vp : Value} {Lp : L
         rw [hta] at hz; cases hz
       | some ta =>
         -- Flow 2: the moved text node is merged into the last child
+        have hkac : ka.handle ≠ c := fun e => hsame (by rw [hlo, e])
         have hr2 : X.addConsolidate c (X.lastChild p) none =
             ((X.setValue ka.handle (.text (ta ++ tc))).spliceOut c, true) := by
           rw [hlast, hlo]
-          exact Forest.addConsolidate_prev hc (hXtext.trans htd) ((Forest.textOf_of_get hka_get).trans hta) _
-        have hkac : ka.handle ≠ c := fun e => hsame (by rw [hlo, e])
+          exact Forest.addConsolidate_prev hc (hXtext.trans htd) ((Forest.textOf_of_get hka_get).trans hta) _ hkac
         have hkatext : ka.value.isText = true := isText_iff_textData.2 ⟨ta, hta⟩
         have hleaf_t : t.kids = [] := leaf_of_text inv.valid hgc htt
         have hleaf_ka : ∀ k' ∈ L' ++ [ka], k'.handle = ka.handle → k'.kids = [] := by
@@ -398,13 +398,13 @@ theorem appendTail_same {f : Forest} {p : Nat} {t : HTree} {vp : Value} {l r : L
         rw [hta] at hz; cases hz
       | some ta =>
         -- Flow 2
+        have hkat : ka.handle ≠ t.handle := tr ka (by simp)
         have hr2 : f.addConsolidate t.handle (f.lastChild p) none =
             ((f.setValue ka.handle (.text (ta ++ tc))).spliceOut t.handle, true) := by
           rw [hlast, hlo]
           exact Forest.addConsolidate_prev hc ((Forest.textOf_of_get hgc).trans htd)
-            ((Forest.textOf_of_get hka_get).trans hta) _
+            ((Forest.textOf_of_get hka_get).trans hta) _ hkat
         have hleaf_t : t.kids = [] := leaf_of_text inv.valid hgc htt
-        have hkat : ka.handle ≠ t.handle := tr ka (by simp)
         let S : List HTree → List HTree := replaceTop ka.handle (fun k => [k.setValue (.text (ta ++ tc))])
         have hset : f.setValue ka.handle (.text (ta ++ tc)) = f.editAt (some p) S :=
           Forest.setValue_of_ctx _ nd ska.ctx
